@@ -34,6 +34,11 @@ def check(ctx):
     ps.check_writes()
     ctx.note(f'derive slice: {len(fns)} functions')
     shared.check_constructor_store(ctx)
+    # decoding hands out independent objects (an instance kept in a cache would be changed by later decodes)
+    from ..rules import decode as _dec
+    dfns, _ = _dec.decode_slice(ctx)
+    dps = persist.Persist(ctx, [ctx.fn(f'{GP}.get_graph')], dfns)
+    dps.check_escape(ctx.fn(f'{GP}.get_graph'), position=0)
     shared.check_node_field_writes(ctx)
     shared.check_degree_recompute(ctx)
     shared.check_class_level_writes(ctx)
